@@ -501,6 +501,17 @@ def gen_request_case(g, tier, focus=None, c17=None):
         big = (tier != "quick" and g.chance(0.05))
         headers = mix(g, [via_lines, route_lines, rr_lines], [base_h], ext_headers(g, g.pick([0, 1, 3, 8, 40]) if g.chance(0.3) else g.rint(0, 4), big))
         body = body_of(g, big)
+        # a message relayed over UDP must fit into one datagram (65 507 bytes) after the proxy has added its own
+        # Via / Record-Route: keep the rendered size under 60 000 by shortening the body, then the extension headers
+        hsize = sum(len(n) + len(v) + 6 for n, v in headers)
+        while hsize > 50000:
+            k = max(range(len(headers)), key=lambda i: len(headers[i][1]))     # only the big extension values are that long
+            if len(headers[k][1]) < 2000:
+                break
+            headers[k] = (headers[k][0], headers[k][1][:len(headers[k][1]) // 2].strip())
+            hsize = sum(len(n) + len(v) + 6 for n, v in headers)
+        if hsize + len(body) > 60000:
+            body = body[:60000 - hsize]
         eol = g.sp_pick(["\r\n", "\r\n", "\n"])
         data = c.render("%s %s SIP/2.0" % (method, ru), headers, body, eol, cl_name=spell(g, "Content-Length", g.sp_pick([0, 0, 1, 2, 3, 4])))
         exp = ["spec=C03 " + expect_dest(dest_kind, dest_addr, w.backends[pi] or []), "spec=C03 atmostone"]
